@@ -1,5 +1,5 @@
 #!/usr/bin/env python3
-"""Evaluate a seeded change:  lib/seedtest.py <worktree-dir> <seed-id> [--props C01,C02|all] [--skip-confirm]
+"""Evaluate a seeded change:  lib/seedtest.py <worktree-dir|-> <seed-id> [--props C01,C02|all] [--skip-confirm]
  1. confirm in the scratch worktree: existing suite green with the change, demo fails with / passes without it
  2. copy patch + demo + meta into /verif/seeded/<seed-id>/
  3. apply the patch to /repo, run the chosen checks (quick), undo
@@ -20,13 +20,17 @@ def main():
     for i, a in enumerate(sys.argv):
         if a == "--props":
             props = sys.argv[i + 1]
-    sd = os.path.join(wt, "_seeded")
+    dest = os.path.join(ROOT, "seeded", sid)
+    if wt == "-":
+        # re-evaluation of a kept change (the scratch worktree is gone): use /verif/seeded/<id>/patch.diff
+        sd, skip = dest, True
+    else:
+        sd = os.path.join(wt, "_seeded")
     patch = os.path.join(sd, "patch.diff")
     assert os.path.exists(patch), "no patch.diff"
-    dest = os.path.join(ROOT, "seeded", sid)
     os.makedirs(dest, exist_ok=True)
     for f in glob.glob(os.path.join(sd, "*")):
-        if os.path.isfile(f):
+        if os.path.isfile(f) and sd != dest:
             shutil.copy(f, dest)
     meta_p = os.path.join(dest, "meta.json")
     meta = json.load(open(meta_p)) if os.path.exists(meta_p) else {}
